@@ -20,7 +20,7 @@ CHECKS = {
             "request shapes and histories; model tied to the code by differential histories + bit-exact float stream; the property's "
             "own oracle recomputes usage/capacity/units on the real service after every accepted write.",
             "6 C01", SEQ_NOTE, "Coq proof (induction over request lists, running-sum accumulator invariant) + vm_compute model/implementation correspondence + implementation oracle"),
-    'C04': ("proof", "Coq theorems C04_rejected_no_trace (every error exit of every write handler leaves all tables but "
+    'C04': ("proof", "Under ALL schedules of Model/ConcAll.v: a request answered >= 300 changed no heavy table in any of its steps, at most one step of a request changes them (C04_rejected_no_trace_all_schedules, c04a_one_commit). Coq theorems C04_rejected_no_trace (every error exit of every write handler leaves all tables but "
             "projects/users/consumer types untouched, incl. removal of auto-created consumers on every failing path) and the "
             "complete-effect theorems for multi-consumer writes, inventory, trait and aggregate replacement; tied by differential "
             "histories; oracle compares full dumps around every rejected request on the real service.",
@@ -48,7 +48,7 @@ CHECKS = {
             "increments of the requests answered with success, a request answered >= 300 moves no provider generation, a successful one "
             "moves it within the bounds of its kind (C10_accounting_all_schedules, C10_accounting_per_request, C10_bounds_by_kind).",
             "6 C10", SEQ_NOTE, "Coq proof (compare-and-swap lemmas per mutator) + vm_compute correspondence + generation oracle"),
-    'C12': ("proof", "Coq theorems C12_step / C12_invariant (consumer exists iff it holds allocations, in every reachable state), "
+    'C12': ("proof", "Under ALL schedules of Model/ConcAll.v: a consumer record without allocations is always owed by an unfinished request (C12_stray_is_owed) and when every request is answered the invariant holds again (C12_final_state). Coq theorems C12_step / C12_invariant (consumer exists iff it holds allocations, in every reachable state), "
             "C12_attrs, C12_recreate; tied by differential consumer-heavy histories across the version bands; oracle checks the "
             "consumers/allocations anti-join and attributes after every request.",
             "6 C12", SEQ_NOTE, "Coq invariant proof by induction over histories + vm_compute correspondence + anti-join oracle"),
